@@ -184,7 +184,27 @@ def checkEntry (e : String × List String × String × Bool) : Bool :=
     | some k => k.le (kindOf e.1)
     | none => false
 
-def tableTyped (tbl : Table) : Bool := tbl.all checkEntry
+/-- Argument positions a handler ignores (`del indent, dedent  # Unused`, `del eol`). -/
+def Handler.dropped : Handler → List Nat
+  | .structureBody => [0, 5]
+  | .fieldBody | .enumValueBody | .externalBody | .inlineBitsBody => [0, 3]
+  | .conditionalField => [5, 7]
+  | .enumBody => [0, 4]
+  | .commentLine => [1]
+  | .eol => [0]
+  | _ => []
+
+/-- Every ignored argument position holds a layout terminal (Indent, Dedent, newline) in
+the production the handler is registered for — so ignoring it loses no content. -/
+def dropOK (e : String × List String × String × Bool) : Bool :=
+  match resolve e with
+  | none => false
+  | some h => h.dropped.all (fun i => match e.2.1[i]? with
+    | some s => isLayoutSym s
+    | none => false)
+
+def tableTyped (tbl : Table) : Bool :=
+  tbl.all checkEntry && tbl.all dropOK && tbl.all (fun e => !isLayoutSym e.1)
 
 /-! ## Trees of the grammar -/
 
